@@ -17,12 +17,15 @@ pub struct Proj {
     /// needs the ieee library (else only library std is loaded: every find_all_references walks all libraries)
     pub ieee: bool,
     pub files: Vec<PFile>,
+    /// edit history: every step replaces the text of some files (update_source + analyse)
+    pub history: Vec<Vec<(String, String)>>,
 }
 
 impl Proj {
     pub fn to_json(&self) -> serde_json::Value {
         serde_json::json!({
             "name": self.name, "kind": self.kind, "ieee": self.ieee,
+            "history": self.history.iter().map(|s| s.iter().map(|(n, t)| serde_json::json!({"name": n, "text": t})).collect::<Vec<_>>()).collect::<Vec<_>>(),
             "files": self.files.iter().map(|f| serde_json::json!({"lib": f.lib, "name": f.name, "text": f.text})).collect::<Vec<_>>()
         })
     }
@@ -32,7 +35,8 @@ impl Proj {
         for f in files {
             fs.push(PFile { lib: f.get("lib")?.as_str()?.to_string(), name: f.get("name")?.as_str()?.to_string(), text: f.get("text")?.as_str()?.to_string() });
         }
-        Some(Proj { name: v.get("name").and_then(|x| x.as_str()).unwrap_or("replay").to_string(), kind: v.get("kind").and_then(|x| x.as_str()).unwrap_or("replay").to_string(), ieee: v.get("ieee").and_then(|x| x.as_bool()).unwrap_or(true), files: fs })
+        Some(Proj { name: v.get("name").and_then(|x| x.as_str()).unwrap_or("replay").to_string(), kind: v.get("kind").and_then(|x| x.as_str()).unwrap_or("replay").to_string(), ieee: v.get("ieee").and_then(|x| x.as_bool()).unwrap_or(true), files: fs,
+            history: v.get("history").and_then(|h| h.as_array()).map(|steps| steps.iter().map(|s| s.as_array().map(|es| es.iter().filter_map(|e| Some((e.get("name")?.as_str()?.to_string(), e.get("text")?.as_str()?.to_string()))).collect()).unwrap_or_default()).collect()).unwrap_or_default() })
     }
 }
 
@@ -467,6 +471,7 @@ const KEYS: &[&str] = &[
     "pkx", "gf", "t", "gfi", "fh", "rd", "f", "sel_t", "a0", "a1", "ln", "gpx", "gp2", "ip", "c9", "gpxi", "gp2i", "ex", "sel", "o", "ax", "kx", "vx",
     "cg", "b0", "b1", "px", "nx", "l1", "ix", "l2", "cs", "nosuch", "nosuch2",
     "bank2", "bank_pkg", "bch", "channel8", "channel_pkg", "clampp", "cmax", "counter_pkg", "ctop", "cvalue", "cwidth", "cwrap", "d1", "d2", "ech", "ed", "ed_a", "ed_at", "ed_g", "ed_gain", "ed_hi", "ed_lo", "ed_q", "ed_r", "ed_rtl", "ed_s", "ed_t", "ed_tb", "ed_tmp", "factor", "k1", "k2", "k3", "k4", "k5", "lch", "na", "nb", "nch", "ncnt", "nest_e", "nlimit", "peak", "plimit", "scale", "sch", "target", "tsim", "tx", "ty", "tz", "user_pkg", "value",
+    "cn", "cn_w", "cn_clk", "cn_d", "cn_q", "cn_rtl", "cn_r", "cn_p", "dp", "dp_c", "dp_f", "dp_x", "dtop", "dstr", "da", "db", "dk", "du",
     "s3_al", "lbyte_t", "byte_al", "lstate_t", "lidle", "lrun", "st_al", "lst", "lvec", "lfn", "lfn_al", "mark3", "proc2", "pvar", "pvar_al",
 ];
 const KEYS2: &[&str] = &["dut", "dut2"];
@@ -652,7 +657,7 @@ pub fn gen_base(rng: &mut Rng, idx: usize) -> Proj {
         let l2 = names.u("lib2", &mut Rng::new(0)).to_lowercase();
         files.push(PFile { lib: l2, name: "q.vhd".into(), text: fill(T_LIB2, &flags, &names, rng, comments) });
     }
-    Proj { name: format!("gen{idx}"), kind: if uattr { "generated-erroneous".into() } else { "generated".into() }, ieee, files }
+    Proj { name: format!("gen{idx}"), kind: if uattr { "generated-erroneous".into() } else { "generated".into() }, ieee, files, history: vec![] }
 }
 
 /// crude token scanner for the mutations: (start, end, is_word)
@@ -774,4 +779,116 @@ pub fn mutate(rng: &mut Rng, base: &Proj, idx: usize) -> Proj {
     p.name = format!("mut{idx}");
     p.kind = format!("mutated:{}", what.join("+"));
     p
+}
+
+
+const T_DUP: &str = r#"entity {cn} is
+  generic ({cn_w} : natural := 8);
+  port ({cn_clk} : in bit; {cn_d} : in bit_vector({cn_w} - 1 downto 0); {cn_q} : out bit_vector({cn_w} - 1 downto 0));
+end entity {cn};
+
+architecture {cn_rtl} of {cn} is
+  signal {cn_r} : bit_vector({cn_w} - 1 downto 0);
+begin
+  {cn_p} : process ({cn_clk}) is
+  begin
+    if {cn_clk} = '1' then
+      {cn_r} <= {cn_d};
+    end if;
+  end process {cn_p};
+  {cn_q} <= {cn_r};
+end architecture {cn_rtl};
+
+package {dp} is
+  constant {dp_c} : natural := 3;
+  function {dp_f}({dp_x} : natural) return natural;
+end package {dp};
+
+package body {dp} is
+  function {dp_f}({dp_x} : natural) return natural is
+  begin
+    return {dp_x} + {dp_c};
+  end function {dp_f};
+end package body {dp};
+"#;
+
+const T_DUP_TOP: &str = r#"use work.{dp}.all;
+entity {dtop} is
+  port ({cn_clk} : in bit);
+end entity {dtop};
+
+architecture {dstr} of {dtop} is
+  signal {da}, {db} : bit_vector({dp_c} downto 0);
+  constant {dk} : natural := {dp_f}({dp_x} => 1) + work.{dp}.{dp_c};
+begin
+  {du} : entity work.{cn}({cn_rtl}) generic map ({cn_w} => 4) port map ({cn_clk} => {cn_clk}, {cn_d} => {da}, {cn_q} => {db});
+end architecture {dstr};
+"#;
+
+/// Projects in which design units are declared twice across files (an old and a new copy both matched by the
+/// file pattern of a library), with an edit history: edit the one, edit the other, empty one, restore it.
+pub fn gen_dup(rng: &mut Rng, idx: usize) -> Proj {
+    let names = Names::new(rng);
+    let flags: HashMap<&str, bool> = HashMap::new();
+    let orig = fill(T_DUP, &flags, &names, rng, false);
+    let top = fill(T_DUP_TOP, &flags, &names, rng, false);
+    // the copy: the whole file or some of its units, with another layout (shifted lines / columns)
+    let units: Vec<&str> = orig.split("\n\n").collect();
+    let which = rng.below(5);
+    let picked: Vec<&str> = match which {
+        0 => units.clone(),              // whole file
+        1 => vec![units[0]],             // the entity only (primary unit)
+        2 => vec![units[1]],             // the architecture only (secondary unit)
+        3 => vec![units[2], units[3]],   // package + body
+        _ => vec![units[0], units[1]],   // entity + architecture
+    };
+    let mut copy = String::new();
+    match rng.below(3) {
+        0 => {}
+        1 => copy.push_str("-- older version\n\n"),
+        _ => copy.push_str("-- backup\n-- of the file\n"),
+    }
+    let indent = rng.below(3);
+    for u in &picked {
+        for l in u.lines() {
+            copy.push_str(&" ".repeat(indent));
+            copy.push_str(l);
+            copy.push('\n');
+        }
+        copy.push('\n');
+    }
+    let same_lib = rng.chance(4, 5);
+    let copy_first = rng.chance(1, 2);
+    let mut files = vec![
+        PFile { lib: "lib".into(), name: "counter.vhd".into(), text: orig.clone() },
+        PFile { lib: if same_lib { "lib".into() } else { "libcopy".into() }, name: "backup_counter.vhd".into(), text: copy.clone() },
+    ];
+    if copy_first {
+        files.swap(0, 1);
+    }
+    files.push(PFile { lib: "lib".into(), name: "top.vhd".into(), text: top });
+    // history
+    let mut history = vec![];
+    let mut cur: HashMap<&str, String> = HashMap::new();
+    cur.insert("counter.vhd", orig.clone());
+    cur.insert("backup_counter.vhd", copy.clone());
+    let nsteps = 2 + rng.below(4);
+    let mut n = 0;
+    for _ in 0..nsteps {
+        let f = if rng.chance(1, 2) { "counter.vhd" } else { "backup_counter.vhd" };
+        let base = if f == "counter.vhd" { &orig } else { &copy };
+        let now = cur[f].clone();
+        n += 1;
+        let new = match rng.below(6) {
+            0 => String::new(),                                            // empty the file (all units removed)
+            1 => base.clone(),                                             // restore
+            2 => format!("-- edit {n}\n{now}"),                           // shift all lines
+            3 => now.replacen("  ", "      ", 1),                          // shift columns of one line
+            4 => now.replacen(" is\n", " is -- c\n\n", 1),               // blank line after the first `is`
+            _ => format!("\n\n{base}"),
+        };
+        cur.insert(f, new.clone());
+        history.push(vec![(f.to_string(), new)]);
+    }
+    Proj { name: format!("dup{idx}"), kind: format!("duplicate-units:{}", ["whole-file", "entity", "architecture", "package+body", "entity+architecture"][which]), ieee: false, files, history }
 }
